@@ -234,6 +234,33 @@ pub fn deviations_ex(cfg: &AttackCfg, r: &RefRun, seed: u64, also_live: bool) ->
             }
         }
     }
+    // an OT-extension receiver that sends an empty matrix (or one row short) and answers the KOS
+    // check with zeros: with Q = 0 the check equation holds for any coefficients, so only the row
+    // count of the matrix can catch it
+    {
+        let setups: Vec<usize> = (0..ss.len()).filter(|i| ss[*i].phase == "ALSZ_OT_setup").collect();
+        for &mi in &setups {
+            let to = ss[mi].to;
+            let o = site_occ[mi];
+            let Some(ci) = (0..ss.len()).find(|i| ss[*i].phase == "KOS_OT_x_t0_t1" && ss[*i].to == to && site_occ[*i] == o) else { continue };
+            if o > 1 {
+                continue;
+            }
+            let zero_answer = schema::encode_msg(&V::Vec(vec![V::Tup(vec![V::Arr(vec![V::U8(0); 16]), V::Arr(vec![V::U8(0); 16]), V::Arr(vec![V::U8(0); 16])])], 1));
+            push(
+                format!("ALSZ_OT_setup#{}:empty-matrix+zero-check-answer:one-recipient", o.min(1)),
+                vec![(mi, MutSpec::At { path: vec![], op: LeafOp::VecClear }), (ci, MutSpec::Bytes(zero_answer.clone()))],
+                vec![to],
+                &mut out,
+            );
+            push(
+                format!("ALSZ_OT_setup#{}:one-row-short+zero-check-answer:one-recipient", o.min(1)),
+                vec![(mi, MutSpec::At { path: vec![], op: LeafOp::VecResize(-1) }), (ci, MutSpec::Bytes(zero_answer))],
+                vec![to],
+                &mut out,
+            );
+        }
+    }
     // a liar that stays consistent with its own commitment: claimed bit (or MAC) of 'fashare ver'
     // altered together with the commitment cm of the preceding 'fashare comm'
     {
@@ -781,7 +808,7 @@ impl Check for C04 {
         "fault_enumeration"
     }
     fn rule(&self) -> String {
-        "three sub-checks. A (fault enumeration): per attack configuration (n in {2,3}) every verification step of the preprocessing is attacked with a deviation for which the protocol promises detection - coin-toss commitment / opening (message and, through a tap, the cheater using the other seed itself), base-OT point and both ciphertexts of a base OT, one ALSZ column flipped in 64 of 128 rows, each KOS check field, aBit check bit / MAC, aShare commitments c0+c1 and cm / claimed bit / MAC / opening, HaAND pair, LaAND e / u / commitment / check value, d-value bit / MAC, Beaver d / e / MACs, echo hashes of the verified broadcast (n=3), own d-value and Beaver openings through taps, same-element field combinations (check bit + MAC, Beaver d + e, all d bits of a bucket), and liars that stay consistent with their own commitments (claimed bit / MAC / non-canonical bit byte of 'fashare ver', or a decommitment cut short by one byte / to the bit / to nothing, with a recomputed cm; a wrong key sum with recomputed c0 / c1) - at first / last / random index, towards one recipient and (n=3, broadcast values) consistently towards all; scripted adversary for message deviations, live + tap for self-consistent lies; an honest party that received the bad value and returns Ok is a violation. B (history check over every run of A and the honest reference runs): no honest party sends its k-th 'RNG ver' / 'fashare ver' / 'fashare di_bi' / 'flaand hash' before it completed the receive of every other party's k-th commitment (operation order numbers). C (predictor vs probe, honest runs): the first KOS check coefficient, the aBit test string and the bucket permutation, probed inside the engine, are compared with what an outsider computes from the coin-toss openings seen on the wire strictly before the data under check was sent; alarm only on an exact match (128-bit values; permutations of at least 25 elements, since a shorter one can coincide by chance), or when two OT sessions used the same first coefficient. The same sub-check compares each party's private OT-extension randomness (probed base key and first seed) with what the pair's public coins determine (the first 256 blocks of the pairwise generator's stream and the AES generator's first output for each): no match allowed. distinct = (configuration, deviation) with an effective fault".into()
+        "three sub-checks. A (fault enumeration): per attack configuration (n in {2,3}) every verification step of the preprocessing is attacked with a deviation for which the protocol promises detection - coin-toss commitment / opening (message and, through a tap, the cheater using the other seed itself), base-OT point and both ciphertexts of a base OT, one ALSZ column flipped in 64 of 128 rows, an empty (or one-row-short) OT-extension matrix together with an all-zero KOS check answer (in full runs and against a single KOS session, where the sender itself must refuse), each KOS check field, aBit check bit / MAC, aShare commitments c0+c1 and cm / claimed bit / MAC / opening, HaAND pair, LaAND e / u / commitment / check value, d-value bit / MAC, Beaver d / e / MACs, echo hashes of the verified broadcast (n=3), own d-value and Beaver openings through taps, same-element field combinations (check bit + MAC, Beaver d + e, all d bits of a bucket), and liars that stay consistent with their own commitments (claimed bit / MAC / non-canonical bit byte of 'fashare ver', or a decommitment cut short by one byte / to the bit / to nothing, with a recomputed cm; a wrong key sum with recomputed c0 / c1) - at first / last / random index, towards one recipient and (n=3, broadcast values) consistently towards all; scripted adversary for message deviations, live + tap for self-consistent lies; an honest party that received the bad value and returns Ok is a violation. B (history check over every run of A and the honest reference runs): no honest party sends its k-th 'RNG ver' / 'fashare ver' / 'fashare di_bi' / 'flaand hash' before it completed the receive of every other party's k-th commitment (operation order numbers). C (predictor vs probe, honest runs): the first KOS check coefficient, the aBit test string and the bucket permutation, probed inside the engine, are compared with what an outsider computes from the coin-toss openings seen on the wire strictly before the data under check was sent; alarm only on an exact match (128-bit values; permutations of at least 25 elements, since a shorter one can coincide by chance), or when two OT sessions used the same first coefficient. The same sub-check compares each party's private OT-extension randomness (probed base key and first seed) with what the pair's public coins determine (the first 256 blocks of the pairwise generator's stream and the AES generator's first output for each): no match allowed. distinct = (configuration, deviation) with an effective fault".into()
     }
     fn assumptions(&self) -> Vec<String> {
         vec![
@@ -800,9 +827,38 @@ impl Check for C04 {
                 v.push(json!({"seed": seed, "k": k, "shard": sh, "thorough": tier == Tier::Thorough}));
             }
         }
+        // one KOS session against a receiver that sends a short matrix and a zero check answer
+        for k in 0..(if tier == Tier::Quick { 6 } else { 60 }) {
+            v.push(json!({"seed": seed, "k": k, "kos_matrix": true}));
+        }
         v
     }
     fn run_case(&self, case: &Value, cx: &CaseCx) -> CaseOut {
+        if case.get("kos_matrix").is_some() {
+            let mut out = CaseOut::default();
+            let seed = case["seed"].as_u64().unwrap();
+            let k = case["k"].as_u64().unwrap();
+            let mut rng = entropy::rng(seed, 0xc04b, k);
+            let spec = crate::checks::preproc::OtSpec {
+                len: [1usize, 8, 40, 128, 200][rng.random_range(0..5)],
+                order: 2,
+                choice_mode: 2,
+                corr_mode: 0,
+                cap: 0,
+                seed: rng.random(),
+                sched: crate::sim::SchedSpec { strategy: crate::sim::Strategy::Uniform, seed: rng.random(), explicit: vec![] },
+            };
+            for one_short in [false, true] {
+                cx.begin(&json!({"kos_matrix": spec, "one_short": one_short}));
+                let (v, steps) = crate::checks::preproc::kos_short_matrix_attack(&spec, one_short);
+                out.evals += 1;
+                out.sim_steps += steps;
+                out.count("kos_sessions_against_a_short_matrix", 1);
+                out.distinct.push(entropy::mix(spec.seed, one_short as u64, spec.len as u64));
+                out.violations.extend(v);
+            }
+            return out;
+        }
         let mut out = CaseOut::default();
         let seed = case["seed"].as_u64().unwrap();
         let k = case["k"].as_u64().unwrap();
@@ -861,6 +917,12 @@ impl Check for C04 {
         out
     }
     fn replay(&self, spec: &Value) -> Vec<Violation> {
+        if let Some(o) = spec.get("kos_matrix") {
+            return match serde_json::from_value::<crate::checks::preproc::OtSpec>(o.clone()) {
+                Ok(s) => crate::checks::preproc::kos_short_matrix_attack(&s, spec["one_short"] == true).0,
+                Err(_) => vec![],
+            };
+        }
         if let Some(h) = spec.get("honest") {
             let Some(base) = parse_spec(h) else { return vec![] };
             let n = base.n();
